@@ -372,6 +372,12 @@ def rename_function(fn, newname):
     return new_fn
 
 
+def _names(sym):
+    if not sym:
+        return frozenset()
+    return frozenset([sym] if isinstance(sym, str) else sym)
+
+
 class NameConverter(ast.NodeTransformer):
     def __init__(
         self,
@@ -383,15 +389,17 @@ class NameConverter(ast.NodeTransformer):
         code_mangled,
     ):
         self.analysis = anal
-        self.recurse_sym = recurse_sym
-        self.call_next_sym = call_next_sym
+        # Each may be one name or several (e.g. the function's own name and
+        # recurse used in the same body)
+        self.recurse_syms = _names(recurse_sym)
+        self.call_next_syms = _names(call_next_sym)
         self.ovld_mangled = ovld_mangled
         self.map_mangled = map_mangled
         self.code_mangled = code_mangled
         self.count = count()
 
     def visit_Name(self, node):
-        if node.id == self.recurse_sym:
+        if node.id in self.recurse_syms:
             new_node = ast.Name(self.ovld_mangled, ctx=node.ctx)
             if self.analysis.is_method and isinstance(node.ctx, ast.Load):
                 # Used as a plain value (or called with *args): bind self
@@ -403,15 +411,15 @@ class NameConverter(ast.NodeTransformer):
                     keywords=[],
                 )
             return ast.copy_location(old_node=node, new_node=new_node)
-        elif node.id == self.call_next_sym:
+        elif node.id in self.call_next_syms:
             raise UsageError("call_next should be called right away")
         else:
             return node
 
     def visit_Call(self, node):
-        if not isinstance(node.func, ast.Name) or node.func.id not in (
-            self.recurse_sym,
-            self.call_next_sym,
+        if not isinstance(node.func, ast.Name) or (
+            node.func.id not in self.recurse_syms
+            and node.func.id not in self.call_next_syms
         ):
             return self.generic_visit(node)
 
@@ -421,7 +429,7 @@ class NameConverter(ast.NodeTransformer):
             # The types of *args and **kwargs are not known statically
             return self.generic_visit(node)
 
-        cn = node.func.id == self.call_next_sym
+        cn = node.func.id in self.call_next_syms
         tmp = f"__TMP{next(self.count)}_"
 
         def _make_lookup_call(key, arg):
@@ -519,9 +527,7 @@ def adapt_function(fn, ovld, newname):
         _search_names(fn.__code__, (call_next,), fn.__globals__, fn.__closure__)
     )
     if rec_syms or cn_syms:
-        return recode(
-            fn, ovld, rec_syms and rec_syms[0], cn_syms and cn_syms[0], newname
-        )
+        return recode(fn, ovld, rec_syms, cn_syms, newname)
     else:
         return rename_function(fn, newname)
 
